@@ -957,8 +957,16 @@ def call_external(interp, f, args, kwargs):
                                           ('int', 'from_bytes')):
             # the method of a builtin type called through the type:
             # str.strip(x) is x.strip() for an x of that type
-            tag = interp.types.get(args[0]) if isinstance(args[0], T) else \
-                None
+            tag = (interp.types.get(args[0]) or
+                   interp.path_types.get(args[0])) if isinstance(
+                       args[0], T) else None
+            if tag is None and isinstance(args[0], T) and owner in (
+                    'str', 'bytes') and args[0].op in ('elem', 'item', 'sub',
+                                                       'sym'):
+                # str.strip(x) only works on a str: on the path where the
+                # call returns, x is one
+                tag = owner
+                interp.path_types[args[0]] = owner
             ok = {'str': isinstance(args[0], K) and isinstance(
                       args[0].v, str) or tag == 'str',
                   'bytes': isinstance(args[0], K) and isinstance(
@@ -2105,6 +2113,11 @@ def b_pow(interp, args, kwargs):
 def b_map(interp, args, kwargs):
     if len(args) != 2:
         return NotImplemented
+    if isinstance(args[1], T) and interp.guide is not None and \
+            interp._guided_len(args[1]) is not None:
+        # following one input: the elements are those of its value
+        return ListV([interp.call(args[0], [x])
+                      for x in interp.iterate(args[1])])
     if isinstance(args[1], T):
         return T('call', 'map', interp.termify(args[0]), args[1])
     return ListV([interp.call(args[0], [x])
